@@ -53,6 +53,21 @@ def run(tier):
             continue
         seen.add(tf)
         rp.violation({"kind": "oracle", "history": d, "explanation": "an object returned by a pool Get is not fresh"}, "poolhist_%s" % tf)
+    # whole-tree releases of wide / deep shapes (work-queue limits of the release paths), then drain the pools
+    big = sqlgen.wide_statements(tier) + sqlgen.deep_statements(tier) + sqlgen.SPECIAL + sqlgen.generated_statements(rng, 100)
+    p = common.vh(["poolbig"], input="".join(json.dumps({"sql": s}) + "\n" for s in big), timeout=1800)
+    pb = json.loads(p.stdout) if p.returncode == 0 and p.stdout.strip() else None
+    if pb is None:
+        rp.violation({"kind": "harness", "detail": p.stderr[-2000:]}, "poolbig_harness", no_input=True)
+        pb = {"trees": 0, "nodes_released": 0, "gets": 0, "gets_reused": 0, "dirty": [], "samples": []}
+    seenb = set()
+    for d in pb.get("dirty") or []:
+        tf = d.split(" ")[0]
+        if tf in seenb:
+            continue
+        seenb.add(tf)
+        rp.violation({"kind": "oracle", "history": d, "explanation": "after releasing a whole parsed tree, a pool handed out a node that is not fresh (release is not uniform: depends on tree size/shape)"}, "poolbig_%s" % tf)
+    rp.cov["tree_release"] = {k: pb[k] for k in ("trees", "nodes_released", "gets", "gets_reused")}
     stmts = sqlgen.generated_statements(rng, 300) + [
         "SELECT a -- c1\nFROM t /* c2 */ WHERE b = 1", "-- only comment\nSELECT 1 /* x */", "/* a */ SELECT /* b */ 1 -- c",
         "SELECT a[1], b[2:3], ARRAY[1,2,3], (1,2) FROM t", "SELECT CASE WHEN a THEN b ELSE c END, f(x) FILTER (WHERE y) FROM t"]
